@@ -186,3 +186,10 @@ func verifSnapshotDir(dir string) string {
 // non-short-circuit boolean connectives (no path fork in the engine)
 func verifOr(a, b bool) bool  { return a || b }
 func verifAnd(a, b bool) bool { return a && b }
+
+// ---- TCP endpoint model (native twins: not implemented; harnesses using them are engine-only)
+func verifEndpointUp(up bool)            {}
+func verifNumConns() int                 { return 0 }
+func verifEndpointLog(k int) []byte      { return nil }
+func verifEndpointClose(k int)           {}
+func verifEndpointStall(k int, on bool)  {}
